@@ -48,6 +48,19 @@ Theorem C23_prop_of_model_size : forall line,
 Proof. exact prop_C23_size. Qed.
 Print Assumptions C23_prop_of_model_size.
 
+(* CENTRAL THEOREM.  wf_C23 is the executable well-formedness of a harness input (one of the three operation shapes;
+   read sizes a list of integers; encoder chunks byte strings shorter than 2^64).  On every well-formed input the
+   predicate the harness evaluates on the implementation's observation holds of the model's observation; kf_C23 is
+   0 everywhere (no known-finding class is left). *)
+Theorem C23_prop_of_model : forall i, wf_C23 i = true -> kf_C23 i = 0 -> prop_C23 i (run_C23 i) = true.
+Proof. exact prop_C23_of_model. Qed.
+Print Assumptions C23_prop_of_model.
+(* corpus cases (trunc-after-data, an encoder input with an empty write, the empty size token) are well-formed *)
+Example C23_wf_corpus :
+  wf_C23 (VL [VZ 1; VB [53;13;10;104;101;108;108;111]; VL [VZ 3]; VL [VZ 2]]) = true /\
+  wf_C23 (VL [VZ 2; VL [VB [104;105]; VB []]]) = true /\ wf_C23 (VL [VZ 3; VB []]) = true.
+Proof. exact wf_C23_corpus. Qed.
+
 (* What the code did before the fix (old parseHexUint kept as parse_hex_prefix): the empty token and a 17-digit
    token were accepted (as 0 = last chunk, and as 5 after silent wrap-around) although the grammar rejects them. *)
 Theorem C23_prefix_bad_size_refuted :
